@@ -73,6 +73,7 @@ class VC:
         self.native_results = []  # (name, ok, detail)
         self.paths = 0
         self.paths_covered = 0
+        self.paths_cover_unknown = 0
         self.paths_aborted = 0
         self.notes = []
         self.solver_time = 0.0
@@ -224,6 +225,9 @@ class VC:
 
     def sqrt(self, x):
         return SymReal.lift(x).sqrt() if self.symbolic else math.sqrt(x)
+
+    def log(self, x):
+        return SymReal.lift(x).log() if self.symbolic else (math.log(x) if x > 0 else float("nan"))
 
     def arccos(self, x):
         return SymReal.lift(x).arccos() if self.symbolic else math.acos(max(-1.0, min(1.0, x)))
@@ -405,6 +409,13 @@ class VC:
                 return "discharged", "rewrite+polyid", None, None
         except z3.Z3Exception:
             pass
+        # 0b. purification: every non-linear / conditional / uninterpreted real sub-term becomes an opaque
+        #     constant (same term -> same constant); if the abstraction is valid in linear arithmetic so is the goal
+        try:
+            if _abstract_lra_valid(pc, goal):
+                return "discharged", "abstract-lra", None, None
+        except z3.Z3Exception:
+            pass
         # 0. case split on the If-conditions inside the goal, exact identity check per feasible case
         try:
             cs = self._case_split(pc, goal)
@@ -477,7 +488,7 @@ class VC:
         Returns True if every feasible case is valid, None if undecided (never claims a refutation)."""
         if not _has_ite(goal):
             return None
-        deadline = time.time() + max(10.0, self.timeout_s * 2)
+        deadline = time.time() + 8.0
         s = z3.Solver()
         s.set("timeout", 2000)
         s.add(*pc)
@@ -591,8 +602,11 @@ class VC:
             s = z3.Solver()
             s.set("timeout", 5000)
             s.add(*info["pc"])
-            if s.check() == z3.sat:
+            r = s.check()
+            if r == z3.sat:
                 self.paths_covered += 1
+            elif r == z3.unknown:
+                self.paths_cover_unknown += 1
 
         def body():
             self.facts = []
@@ -639,6 +653,7 @@ class VC:
             "cfg": self.cfg,
             "paths": self.paths,
             "paths_covered": self.paths_covered,
+            "paths_cover_unknown": self.paths_cover_unknown,
             "paths_aborted": self.paths_aborted,
             "obligations": len(real),
             "discharged": sum(o["status"] == "discharged" for o in real),
@@ -661,6 +676,89 @@ class VC:
             ],
             "notes": self.notes,
         }
+
+
+class _Purifier:
+    def __init__(self):
+        self.memo = {}
+        self.fresh = {}
+
+    def _opaque(self, t):
+        k = z3.simplify(t).get_id()
+        if k not in self.fresh:
+            self.fresh[k] = z3.Real(f"abs!{len(self.fresh)}")
+        return self.fresh[k]
+
+    def real(self, t):
+        key = t.get_id()
+        if key in self.memo:
+            return self.memo[key]
+        r = None
+        if z3.is_rational_value(t) or (z3.is_const(t) and t.decl().kind() == z3.Z3_OP_UNINTERPRETED):
+            r = t
+        elif z3.is_app(t):
+            k = t.decl().kind()
+            ch = t.children()
+            if k == z3.Z3_OP_ADD:
+                r = z3.Sum([self.real(c) for c in ch])
+            elif k == z3.Z3_OP_SUB:
+                r = self.real(ch[0])
+                for c in ch[1:]:
+                    r = r - self.real(c)
+            elif k == z3.Z3_OP_UMINUS:
+                r = -self.real(ch[0])
+            elif k == z3.Z3_OP_MUL:
+                nums = [c for c in ch if z3.is_rational_value(c)]
+                rest = [c for c in ch if not z3.is_rational_value(c)]
+                if len(rest) <= 1:
+                    r = z3.RealVal(1)
+                    for c in nums:
+                        r = r * c
+                    if rest:
+                        r = r * self.real(rest[0])
+            elif k == z3.Z3_OP_DIV and z3.is_rational_value(ch[1]) and ch[1].numerator_as_long() != 0:
+                r = self.real(ch[0]) / ch[1]
+        if r is None:
+            r = self._opaque(t)
+        self.memo[key] = r
+        return r
+
+    def boolean(self, t):
+        key = ("b", t.get_id())
+        if key in self.memo:
+            return self.memo[key]
+        r = None
+        if z3.is_true(t) or z3.is_false(t):
+            r = t
+        elif z3.is_app(t):
+            k = t.decl().kind()
+            ch = t.children()
+            if k in (z3.Z3_OP_AND, z3.Z3_OP_OR, z3.Z3_OP_NOT, z3.Z3_OP_IMPLIES, z3.Z3_OP_XOR) or (k in (z3.Z3_OP_EQ, z3.Z3_OP_IFF, z3.Z3_OP_ITE, z3.Z3_OP_DISTINCT) and ch and ch[-1].sort_kind() == z3.Z3_BOOL_SORT and ch[0].sort_kind() == z3.Z3_BOOL_SORT):
+                args = [self.boolean(c) for c in ch]
+                r = {z3.Z3_OP_AND: lambda: z3.And(args), z3.Z3_OP_OR: lambda: z3.Or(args), z3.Z3_OP_NOT: lambda: z3.Not(args[0]),
+                     z3.Z3_OP_IMPLIES: lambda: z3.Implies(args[0], args[1]), z3.Z3_OP_XOR: lambda: z3.Xor(args[0], args[1]),
+                     z3.Z3_OP_EQ: lambda: args[0] == args[1], z3.Z3_OP_IFF: lambda: args[0] == args[1],
+                     z3.Z3_OP_ITE: lambda: z3.If(args[0], args[1], args[2]), z3.Z3_OP_DISTINCT: lambda: z3.Distinct(args)}[k]()
+            elif k in (z3.Z3_OP_LE, z3.Z3_OP_GE, z3.Z3_OP_LT, z3.Z3_OP_GT, z3.Z3_OP_EQ, z3.Z3_OP_DISTINCT) and ch and ch[0].sort_kind() == z3.Z3_REAL_SORT:
+                a, b = self.real(ch[0]), self.real(ch[1])
+                r = {z3.Z3_OP_LE: a <= b, z3.Z3_OP_GE: a >= b, z3.Z3_OP_LT: a < b, z3.Z3_OP_GT: a > b, z3.Z3_OP_EQ: a == b, z3.Z3_OP_DISTINCT: a != b}[k]
+        if r is None:
+            kk = t.get_id()
+            if ("B", kk) not in self.fresh:
+                self.fresh[("B", kk)] = z3.Bool(f"absb!{len(self.fresh)}")
+            r = self.fresh[("B", kk)]
+        self.memo[key] = r
+        return r
+
+
+def _abstract_lra_valid(pc, goal):
+    P = _Purifier()
+    s = z3.Solver()
+    s.set("timeout", 3000)
+    for c in pc:
+        s.add(P.boolean(c))
+    s.add(z3.Not(P.boolean(goal)))
+    return s.check() == z3.unsat
 
 
 def _rewrite_with_hyps(goal):
